@@ -4,7 +4,6 @@ from pygradflow.implicit_func import ImplicitFunc
 from pygradflow.log import logger
 from pygradflow.step.newton_control import NewtonController
 from pygradflow.step.step_control import StepControlResult
-from pygradflow.step.step_solver_error import StepSolverError
 
 
 class ExactController(NewtonController):
@@ -36,7 +35,9 @@ class ExactController(NewtonController):
             rcond = next_step.rcond
 
             if timer.reached_time_limit():
-                raise StepSolverError("Time limit reached")
+                # out of time: abandon this step without changing the step
+                # size, the solver loop reports the time limit
+                return StepControlResult(iterate, lamb, None, None, False)
 
             self.display_step(i, next_step)
 
